@@ -55,12 +55,34 @@ def run(ctx):
         if case["body"]["frames"] < 2 and rng.random() < 0.7:
             continue
         start = rng.choice(["numpy"] * 6 + ["torch", "tf"])
+        if start == "numpy" and rng.random() < 0.2:
+            case["masked_input"] = rng.choice(["none", "partial"])      # the constructor is handed a MaskedArray with no / a partial mask of its own (fake_pose, user code)
         allow_tf = start == "tf" or rng.random() < 0.15
         plan = rng.choice(PLANS) if start == "numpy" and rng.random() < 0.3 else None
         seed = rng.randrange(10 ** 9)
         if start == "numpy" and seed % 3 == 0 and plan is None and rng.random() < 0.6:
             plan = rng.choice(READ_PLANS)                         # the pose comes from a read: in-place operations early on (they edit the object the reader handed out)
         jobs.append({"case": case, "seed": seed, "length": rng.randint(1, ctx.pick(8, 20)), "start": start, "allow_tf": allow_tf, "plan": plan})
+    # planned, every run: degenerate extents — one observed point, all observed points on one horizontal / vertical line (focus then sets a dimension to 0),
+    # and a header that declares 0 × 0 from the start; such poses are well-formed and must stay serialisable
+    for kind in ("one point", "one point (read)", "same x", "same y", "declared 0x0"):
+        case = c09.gen_case(rng)
+        while case["body"]["frames"] < 2 or case["body"]["points"] < 2:
+            case = c09.gen_case(rng)
+        b = case["body"]; F, P, N, D = b["frames"], b["people"], b["points"], b["dims"]
+        conf = pc.bits_to_f32(b["conf"], (F, P, N)).copy(); data = pc.bits_to_f32(b["data"], (F, P, N, D)).copy()
+        if kind.startswith("one point"):
+            conf[:] = 0; conf[rng.randrange(F), rng.randrange(P), rng.randrange(N)] = 1.0
+        elif kind == "same x":
+            data[..., 0] = 2.5
+        elif kind == "same y":
+            data[..., 1] = -1.25
+        else:
+            case["header"] = dict(case["header"], width=0, height=0)
+        b["conf"], b["data"] = pc.f32_to_bits(conf), pc.f32_to_bits(data)
+        seed = rng.randrange(10 ** 9)
+        seed -= seed % 3 if kind == "one point (read)" else 0
+        jobs.append({"case": case, "seed": seed, "length": 3, "start": "numpy", "allow_tf": False, "plan": None if kind == "declared 0x0" else (["focus"] if kind.startswith("one") else ["focus", "flip"]), "planned_case": kind})
     local = [j for j in jobs if not j["allow_tf"]]
     child = [j for j in jobs if j["allow_tf"]]
     results = [(j, seqexec.run_sequence(j["case"], j["seed"], j["length"], j["start"], False, j.get("plan"))) for j in local]
